@@ -2,7 +2,10 @@ package jph
 
 import (
 	"fmt"
+	"math"
+	"reflect"
 	"sort"
+	"strconv"
 	"strings"
 
 	"github.com/AsaiYusuke/jsonpath"
@@ -24,6 +27,22 @@ import (
 //	sel(p =~ /re/) ⊆ sel(p)
 //
 // plus a differential of the whole expression against jpv-spec.
+//
+// Two further families in the random block (12% each):
+//   - near-literal numbers (model-free, no Lean question unless every number is integral):
+//     a number literal L (0.3, 0.1, 1, 1e15, 2^53 …, in several spellings) against members
+//     that hold L, its floating-point neighbours (math.Nextafter once or a few times in both
+//     directions), values a relative 5e-15 … 1e-13 away, the results of inexact
+//     calculations (0.1+0.2, L/3*3, (L+1)-1 …), L±1, and non-numbers. All six operators in
+//     both operand orders: mirror, != = complement of ==, <= / >= = strict ∪ ==, <, ==, >
+//     pairwise disjoint, `P < L || P == L` = `P <= L`, `P <= L && P >= L` = `P == L`, and
+//     every selection is the one Go's comparison of the float64 values gives.
+//   - structured operands of path-vs-path == / != : objects / arrays (also nested in arrays
+//     and objects) that differ in one place — a key renamed (same size, the left-only key
+//     holding null or not), a key dropped or added (strict sub- and supersets, {}), a value
+//     changed, an element dropped — compared as `@.a == $.v`, `$.v == @.a`, `$.v == $.w`,
+//     `$.w == $.v`, `@.a == $.m[j].a` …: mirror, complement, reflect.DeepEqual of the operand
+//     values evaluated in Go, and jpv-spec.
 // Tier thorough starts with an exhaustive block: every expression to depth 2 over a reduced
 // family of 11 leaves, each over every container of 0..3 members of 5 member types, as an
 // array and as an object.
@@ -212,6 +231,16 @@ func (c *c09Ctx) outcome(text string) Outcome {
 	}
 	c.calls++
 	return SafeCall(f, c.doc)
+}
+
+// selText: the set of member positions the path text selects (same memo as sel).
+func (c *c09Ctx) selText(text string) c09Sel {
+	if s, ok := c.memo[text]; ok {
+		return s
+	}
+	s := c.selOf(text, c.outcome(text))
+	c.memo[text] = s
+	return s
 }
 
 // sel: the set of member positions `$.m[?(q)]` selects.
@@ -829,6 +858,12 @@ func (c09) Exec(seed int64, i int, tier string) Record {
 		// a sample of the exhaustive family in the quick tier
 		return c09Exhaustive(r.Intn(c09ExCount()), r)
 	}
+	switch r.Weighted([]int{76, 12, 12}) {
+	case 1:
+		return c09FloatCase(r)
+	case 2:
+		return c09DeepCase(r)
+	}
 	d := c09GenDoc(r)
 	depth := 1 + r.Weighted([]int{35, 40, 25})
 	if r.Chance(15) {
@@ -897,6 +932,645 @@ func (c09) Exec(seed int64, i int, tier string) Record {
 			ck = "o"
 		}
 		rec.Key = fmt.Sprintf("%s/%s%d/%s", queryShape(q), ck, d.n, cls)
+	}
+	for t := range tags {
+		rec.Tags = append(rec.Tags, t)
+	}
+	sort.Strings(rec.Tags)
+	return rec
+}
+
+// ---------- near-literal numbers ----------
+
+var c09FloatLits = []string{"0.3", "0.3", "0.1", "0.7", "1", "1", "3", "1.1", "2.5", "-0.3", "-1", "100", "1e15", "1000000000000000",
+	"9007199254740992", "4503599627370496", "1e-7", "123456789.125", "0.30000000000000004", "1.0000000000000002", "1e300", "2.2250738585072014e-308", "65536"}
+
+func c09Steps(x float64, n int) float64 {
+	dir := math.Inf(1)
+	if n < 0 {
+		dir, n = math.Inf(-1), -n
+	}
+	for ; n > 0; n-- {
+		x = math.Nextafter(x, dir)
+	}
+	return x
+}
+
+// c09Near: numbers equal to, next to, or a small relative distance from l.
+func c09Near(r *Rng, l float64) float64 {
+	one, three, ten := 1.0, 3.0, 10.0
+	switch r.Weighted([]int{16, 22, 12, 14, 12, 10, 8, 6}) {
+	case 0:
+		return l
+	case 1:
+		return c09Steps(l, []int{1, -1}[r.Intn(2)])
+	case 2:
+		return c09Steps(l, []int{1, -1}[r.Intn(2)]*r.Range(2, 40))
+	case 3:
+		rel := []float64{5e-15, 9.9e-15, 1.01e-14, 2e-15, 1e-13, 1e-12, 3e-16}[r.Intn(7)]
+		if r.Chance(50) {
+			rel = -rel
+		}
+		return l * (one + rel)
+	case 4:
+		// inexact calculations that "should" give l
+		switch r.Intn(5) {
+		case 0:
+			return l / three * three
+		case 1:
+			return (l + one) - one
+		case 2:
+			return l * ten / ten
+		case 3:
+			tenth := l / ten
+			sum := 0.0
+			for i := 0; i < 10; i++ {
+				sum += tenth
+			}
+			return sum
+		}
+		a := l / three
+		return a + a + a
+	case 5:
+		if r.Chance(50) {
+			return l + one
+		}
+		return l - one
+	case 6:
+		return -l
+	}
+	return []float64{0, 1, 2, 0.5}[r.Intn(4)]
+}
+
+func c09FloatValue(r *Rng, l float64, litText string) (interface{}, bool) {
+	if r.Chance(80) {
+		v := c09Near(r, l)
+		if math.IsInf(v, 0) || math.IsNaN(v) {
+			v = l
+		}
+		if v == 0 {
+			v = 0 // no negative zero: JSON text "-0" and "0" are one value
+		}
+		return v, true
+	}
+	switch r.Intn(6) {
+	case 0:
+		return litText, true
+	case 1:
+		return nil, true
+	case 2:
+		return r.Chance(50), true
+	case 3:
+		return map[string]interface{}{"b": l}, true
+	case 4:
+		return []interface{}{l}, true
+	}
+	return nil, false
+}
+
+func c09FloatCase(r *Rng) Record {
+	litText := r.Pick(c09FloatLits)
+	l, err := strconv.ParseFloat(litText, 64)
+	rec := Record{Info: map[string]interface{}{"mode": "float", "literal": litText}}
+	if err != nil {
+		rec.Viol, rec.Class = "harness error: literal "+litText, "harness"
+		return rec
+	}
+	// the document
+	n := r.Range(2, 7)
+	ms := make([]interface{}, 0, n)
+	usedBare := map[string]bool{}
+	for j := 0; j < n; j++ {
+		v, has := c09FloatValue(r, l, litText)
+		switch r.Weighted([]int{60, 22, 18}) {
+		case 0:
+			m := map[string]interface{}{"id": float64(10 + j)}
+			if has {
+				m["a"] = v
+			}
+			ms = append(ms, m)
+		case 1:
+			if _, isF := v.(float64); !has || !isF || usedBare[ValSexp(v)] {
+				ms = append(ms, map[string]interface{}{"id": float64(10 + j), "a": v})
+				continue
+			}
+			usedBare[ValSexp(v)] = true
+			ms = append(ms, v)
+		default:
+			if !has {
+				v = l
+			}
+			ms = append(ms, []interface{}{v, float64(100 + j)})
+		}
+	}
+	isObj := r.Chance(40)
+	var container interface{} = ms
+	var keys []string
+	if isObj {
+		pool := []string{"a", "b", "c", "d", "e", "f", "aa", "B", "é", "b c"}
+		r.Shuffle(len(pool), func(i, j int) { pool[i], pool[j] = pool[j], pool[i] })
+		keys = append([]string(nil), pool[:n]...)
+		sort.Strings(keys)
+		m := map[string]interface{}{}
+		for j, k := range keys {
+			m[k] = ms[j]
+		}
+		container = m
+	}
+	root := map[string]interface{}{"m": container, "x": c09Near(r, l)}
+	if x := root["x"].(float64); math.IsInf(x, 0) || math.IsNaN(x) || x == 0 {
+		root["x"] = l
+	}
+	docText := JSONText(root)
+	jn := r.Chance(30)
+	doc, derr := c10Decode(docText, jn)
+	if derr != nil {
+		rec.Viol, rec.Class = "harness error: cannot decode "+docText, "harness"
+		return rec
+	}
+	back, _ := c10Decode(docText, false)
+	if !reflect.DeepEqual(back, interface{}(root)) {
+		rec.Viol, rec.Class = "harness error: the JSON text does not give the document back: "+docText, "harness"
+		return rec
+	}
+	rec.Doc = docText
+	// the operand path
+	var p *Path
+	switch r.Weighted([]int{52, 20, 16, 6, 6}) {
+	case 0:
+		p = c09Cur(c09Child("a"))
+	case 1:
+		p = c09Cur()
+	case 2:
+		p = c09Cur(c09Idx(0))
+	case 3:
+		p = c09Root(c09Child("x"))
+	default:
+		j := r.Intn(n)
+		if isObj {
+			p = c09Root(c09Child("m"), &Step{Kind: StChild, Key: keys[j], Bracket: true}, c09Child("a"))
+		} else {
+			p = c09Root(c09Child("m"), c09Idx(j), c09Child("a"))
+		}
+	}
+	ptxt := Render(p, nil)
+	// the literal's spelling
+	ltxt := litText
+	switch r.Intn(4) {
+	case 0:
+		ltxt = strconv.FormatFloat(l, 'e', -1, 64)
+	case 1:
+		if l >= 0 {
+			ltxt = "+" + litText
+		}
+	}
+	if back, err := strconv.ParseFloat(ltxt, 64); err != nil || back != l {
+		ltxt = litText
+	}
+	text := func(op int, swapped bool) string {
+		if swapped {
+			return "$.m[?(" + ltxt + " " + OpText[c09Mirror[op]] + " " + ptxt + ")]"
+		}
+		return "$.m[?(" + ptxt + " " + OpText[op] + " " + ltxt + ")]"
+	}
+	rec.Text = text(c09LE, false)
+	rec.Info["literal_spelling"] = ltxt
+	rec.Info["operand"] = ptxt
+
+	cfg := Config(false, nil)
+	ctx := &c09Ctx{cfg: &cfg, parsed: map[string]Parsed{}}
+	ctx.setDoc(doc.(map[string]interface{}))
+	tags := c09Tagger{"mode:float": true}
+	nm := len(ctx.members)
+	var a [6]c09Sel
+	for op := 0; op < 6; op++ {
+		a[op] = ctx.selText(text(op, false))
+		b := ctx.selText(text(op, true))
+		tags["law:mirror:"+OpNames[op]] = true
+		if !c09Equal(a[op], b) {
+			ctx.fail("law", "swapping the operands and mirroring the operator: %s selects %s but %s selects %s on %s", text(op, false), a[op], text(op, true), b, docText)
+		}
+	}
+	combine := func(f func(i int) bool) c09Sel {
+		s := make(c09Sel, nm)
+		for i := range s {
+			s[i] = f(i)
+		}
+		return s
+	}
+	law := func(name string, lhsText string, lhs, want c09Sel, parts ...int) {
+		tags["law:"+name] = true
+		if c09Equal(lhs, want) {
+			return
+		}
+		var ps []string
+		for _, op := range parts {
+			ps = append(ps, fmt.Sprintf("%s selects %s", text(op, false), a[op]))
+		}
+		ctx.fail("law", "%s: %s selects %s but must select %s (%s) on %s", name, lhsText, lhs, want, strings.Join(ps, "; "), docText)
+	}
+	law("ne=complement(eq)", text(c09NE, false), a[c09NE], combine(func(i int) bool { return !a[c09EQ][i] }), c09EQ)
+	law("le=strict∪eq", text(c09LE, false), a[c09LE], combine(func(i int) bool { return a[c09LT][i] || a[c09EQ][i] }), c09LT, c09EQ)
+	law("ge=strict∪eq", text(c09GE, false), a[c09GE], combine(func(i int) bool { return a[c09GT][i] || a[c09EQ][i] }), c09GT, c09EQ)
+	none := make(c09Sel, nm)
+	law("lt∩eq=∅", text(c09LT, false)+" and "+text(c09EQ, false)+" both", combine(func(i int) bool { return a[c09LT][i] && a[c09EQ][i] }), none, c09LT, c09EQ)
+	law("gt∩eq=∅", text(c09GT, false)+" and "+text(c09EQ, false)+" both", combine(func(i int) bool { return a[c09GT][i] && a[c09EQ][i] }), none, c09GT, c09EQ)
+	law("lt∩gt=∅", text(c09LT, false)+" and "+text(c09GT, false)+" both", combine(func(i int) bool { return a[c09LT][i] && a[c09GT][i] }), none, c09LT, c09GT)
+	or := "$.m[?(" + ptxt + " < " + ltxt + " || " + ptxt + " == " + ltxt + ")]"
+	law("(lt||eq)=le", or, ctx.selText(or), a[c09LE], c09LE)
+	and := "$.m[?(" + ptxt + " <= " + ltxt + " && " + ltxt + " <= " + ptxt + ")]"
+	law("(le&&ge)=eq", and, ctx.selText(and), a[c09EQ], c09EQ)
+	// by value, member by member
+	ms2, _ := c10Members(doc)
+	exercised := false
+	for op := 0; op < 6; op++ {
+		for j, m := range ms2 {
+			x := c10Eval(p, doc, m)
+			f, isNum := c10NumOf(x.v)
+			want := false
+			if x.ok && isNum {
+				exercised = true
+				switch op {
+				case c09EQ:
+					want = f == l
+				case c09NE:
+					want = f != l
+				case c09LT:
+					want = f < l
+				case c09LE:
+					want = f <= l
+				case c09GT:
+					want = f > l
+				default:
+					want = f >= l
+				}
+				switch {
+				case f == l:
+					tags["member:equal"] = true
+				case f == c09Steps(l, 1) || f == c09Steps(l, -1):
+					tags["member:1ulp"] = true
+				case math.Abs(f-l) <= math.Abs(l)*1e-13:
+					tags["member:within-1e-13"] = true
+				default:
+					tags["member:far"] = true
+				}
+			} else if op == c09NE {
+				want = true
+			}
+			if want != a[op][j] {
+				verb := "must not be selected"
+				if want {
+					verb = "must be selected"
+				}
+				ctx.fail("by-value", "%s: member %d (%s) %s (operand %s against %s, compared as float64) but the library selects %s on %s", text(op, false), j, clip(JSONText(m), 80), verb, clip(JSONText(x.v), 40), ltxt, a[op], docText)
+			}
+		}
+	}
+	tags["law:by-value"] = true
+	rec.Viol, rec.Class = ctx.viol, ctx.cls
+	// all numbers integral: the specification can be asked too
+	if n64, perr := strconv.ParseInt(litText, 10, 64); perr == nil && !strings.Contains(ValSexp(doc), "(nonint") && (ctx.viol == "" || ctx.cls == "law" || ctx.cls == "by-value") {
+		q := c09Cmp(r.Intn(6), c09P(p), c09Num(n64))
+		if r.Chance(50) {
+			q = c09Cmp(c09Mirror[q.Op], q.R, q.L)
+		}
+		rec.Q = []LeanQ{c09SpecQ(q, doc, ctx.outcome(c09Text(q)))}
+		tags["float:integral(spec asked)"] = true
+	}
+	rec.Info["library_calls"] = ctx.calls
+	if jn {
+		tags["decode:jnum"] = true
+	}
+	if isObj {
+		tags["container:object"] = true
+	} else {
+		tags["container:array"] = true
+	}
+	if exercised {
+		cls := ""
+		for _, k := range []string{"member:equal", "member:1ulp", "member:within-1e-13", "member:far"} {
+			if tags[k] {
+				cls += k[7:8]
+			}
+		}
+		rec.Key = fmt.Sprintf("fl/%s/%s/%v%d/%s", litText, c10OperandKey(&Operand{Path: p}), isObj, n, cls)
+	}
+	for t := range tags {
+		rec.Tags = append(rec.Tags, t)
+	}
+	sort.Strings(rec.Tags)
+	return rec
+}
+
+// ---------- structured operands of path-vs-path == / != ----------
+
+var c09DeepKeys = []string{"p", "q", "r", "s"}
+
+func c09DeepScalar(r *Rng) interface{} {
+	switch r.Weighted([]int{36, 34, 10, 8, 6, 6}) {
+	case 0:
+		return nil
+	case 1:
+		return float64(r.Range(1, 3))
+	case 2:
+		return r.Pick(c09Strs)
+	case 3:
+		return r.Chance(50)
+	case 4:
+		return map[string]interface{}{}
+	}
+	return []interface{}{}
+}
+
+func c09DeepObj(r *Rng, depth int) map[string]interface{} {
+	n := r.Weighted([]int{6, 30, 40, 24})
+	ks := append([]string(nil), c09DeepKeys...)
+	r.Shuffle(len(ks), func(i, j int) { ks[i], ks[j] = ks[j], ks[i] })
+	m := map[string]interface{}{}
+	for _, k := range ks[:n] {
+		switch {
+		case depth < 2 && r.Chance(14):
+			m[k] = c09DeepObj(r, depth+1)
+		case depth < 2 && r.Chance(10):
+			m[k] = []interface{}{c09DeepScalar(r), c09DeepObj(r, depth+1)}
+		default:
+			m[k] = c09DeepScalar(r)
+		}
+	}
+	return m
+}
+
+// c09DeepVariant: a copy of v that differs in (at most) one place.
+func c09DeepVariant(r *Rng, v interface{}) (interface{}, string) {
+	v = DeepCopy(v)
+	// the containers of v, in a deterministic order
+	var nodes []c07Node
+	c07Containers(v, "", &nodes)
+	if len(nodes) == 0 {
+		return v, "same"
+	}
+	n := nodes[r.Intn(len(nodes))]
+	switch t := n.v.(type) {
+	case map[string]interface{}:
+		ks := sortedKeys(t)
+		var free []string
+		for _, k := range append(append([]string(nil), c09DeepKeys...), "t") {
+			if _, in := t[k]; !in {
+				free = append(free, k)
+			}
+		}
+		nullKeys := []string{}
+		for _, k := range ks {
+			if t[k] == nil {
+				nullKeys = append(nullKeys, k)
+			}
+		}
+		switch op := r.Weighted([]int{14, 16, 12, 12, 14, 12, 10, 10}); {
+		case op == 0:
+			return v, "same"
+		case op == 1 && len(ks) > 0 && len(free) > 0:
+			// rename a key (prefer one holding null), the value under the new name is another one
+			k := ks[r.Intn(len(ks))]
+			if len(nullKeys) > 0 && r.Chance(70) {
+				k = nullKeys[r.Intn(len(nullKeys))]
+			}
+			delete(t, k)
+			t[free[r.Intn(len(free))]] = c09DeepScalar(r)
+			return v, "key-renamed"
+		case op == 2 && len(ks) > 0 && len(free) > 0:
+			// rename a key, the new one holds null
+			delete(t, ks[r.Intn(len(ks))])
+			t[free[r.Intn(len(free))]] = nil
+			return v, "key-renamed-null"
+		case op == 3 && len(ks) > 0 && len(free) > 0:
+			k := ks[r.Intn(len(ks))]
+			x := t[k]
+			delete(t, k)
+			t[free[r.Intn(len(free))]] = x
+			return v, "key-renamed-same-value"
+		case op == 4 && len(ks) > 0:
+			delete(t, ks[r.Intn(len(ks))])
+			return v, "key-dropped"
+		case op == 5 && len(free) > 0:
+			if r.Chance(50) {
+				t[free[r.Intn(len(free))]] = nil
+			} else {
+				t[free[r.Intn(len(free))]] = c09DeepScalar(r)
+			}
+			return v, "key-added"
+		case op == 6 && len(ks) > 0:
+			k := ks[r.Intn(len(ks))]
+			if t[k] != nil && r.Chance(50) {
+				t[k] = nil
+			} else {
+				t[k] = c09DeepScalar(r)
+			}
+			return v, "value-changed"
+		case op == 7:
+			for _, k := range ks {
+				delete(t, k)
+			}
+			return v, "emptied"
+		}
+		return v, "same"
+	case []interface{}:
+		if len(t) == 0 {
+			return v, "same"
+		}
+		i := r.Intn(len(t))
+		if c04IsContainer(t[i]) {
+			return v, "same"
+		}
+		t[i] = c09DeepScalar(r)
+		return v, "element-changed"
+	}
+	return v, "same"
+}
+
+func c09DeepCase(r *Rng) Record {
+	base := c09DeepObj(r, 0)
+	wrapKind := r.Weighted([]int{50, 14, 14, 8, 8, 6})
+	wrap := func(v interface{}) interface{} {
+		switch wrapKind {
+		case 1:
+			return []interface{}{v}
+		case 2:
+			return map[string]interface{}{"k": v}
+		case 3:
+			return []interface{}{float64(0), v}
+		case 4:
+			return map[string]interface{}{"k": []interface{}{v}}
+		case 5:
+			return []interface{}{[]interface{}{v}, nil}
+		}
+		return v
+	}
+	tags := c09Tagger{"mode:deep": true, "wrap:" + []string{"none", "[v]", "{k:v}", "[0,v]", "{k:[v]}", "[[v],null]"}[wrapKind]: true}
+	variant := func() interface{} {
+		v, how := c09DeepVariant(r, base)
+		tags["variant:"+how] = true
+		return wrap(v)
+	}
+	n := r.Range(2, 6)
+	ms := make([]interface{}, n)
+	for j := range ms {
+		m := map[string]interface{}{"id": float64(10 + j)}
+		if !r.Chance(8) {
+			m["a"] = variant()
+		}
+		if r.Chance(30) {
+			m["b"] = variant()
+		}
+		ms[j] = m
+	}
+	isObj := r.Chance(40)
+	var container interface{} = ms
+	var keys []string
+	if isObj {
+		pool := []string{"a", "b", "c", "d", "e", "f", "aa", "B", "é", "b c"}
+		r.Shuffle(len(pool), func(i, j int) { pool[i], pool[j] = pool[j], pool[i] })
+		keys = append([]string(nil), pool[:n]...)
+		sort.Strings(keys)
+		m := map[string]interface{}{}
+		for j, k := range keys {
+			m[k] = ms[j]
+		}
+		container = m
+	}
+	root := map[string]interface{}{"m": container, "v": wrap(DeepCopy(base)), "w": variant()}
+	if r.Chance(25) {
+		root["v"] = variant()
+	}
+	jn := r.Chance(30)
+	var doc interface{} = root
+	if jn {
+		doc = ToJnum(root)
+		tags["decode:jnum"] = true
+	}
+	cur := func() *Path {
+		if r.Chance(78) {
+			return c09Cur(c09Child("a"))
+		}
+		return c09Cur(c09Child("b"))
+	}
+	rootP := func() *Path {
+		switch r.Weighted([]int{50, 28, 16, 6}) {
+		case 0:
+			return c09Root(c09Child("v"))
+		case 1:
+			return c09Root(c09Child("w"))
+		case 2:
+			j := r.Intn(n)
+			if isObj {
+				return c09Root(c09Child("m"), &Step{Kind: StChild, Key: keys[j], Bracket: true}, c09Child("a"))
+			}
+			return c09Root(c09Child("m"), c09Idx(j), c09Child("a"))
+		}
+		return c09Root(c09Child("nope"))
+	}
+	// the same inner step on both sides sometimes: the operands are then the unwrapped values
+	inner := func(p *Path) *Path {
+		switch wrapKind {
+		case 1:
+			p.Steps = append(p.Steps, c09Idx(0))
+		case 2:
+			p.Steps = append(p.Steps, c09Child("k"))
+		case 3:
+			p.Steps = append(p.Steps, c09Idx(1))
+		}
+		return p
+	}
+	var l, rr *Path
+	switch r.Weighted([]int{38, 30, 32}) {
+	case 0:
+		l, rr = cur(), rootP()
+	case 1:
+		l, rr = rootP(), cur()
+	default:
+		l, rr = rootP(), rootP()
+		if Render(l, nil) == Render(rr, nil) {
+			rr = c09Root(c09Child("w"))
+		}
+	}
+	if wrapKind >= 1 && wrapKind <= 3 && r.Chance(30) {
+		l, rr = inner(l), inner(rr)
+	}
+	q := c09Cmp(r.Intn(2), c09P(l), c09P(rr))
+	cfg := Config(false, nil)
+	ctx := &c09Ctx{cfg: &cfg, parsed: map[string]Parsed{}}
+	ctx.setDoc(doc.(map[string]interface{}))
+	rec := Record{Text: c09Text(q), Doc: JSONText(doc), Info: map[string]interface{}{"mode": "deep"}}
+	ctx.leafLaws(q, tags)
+	got := ctx.sel(q)
+	// reflect.DeepEqual of the operand values, member by member
+	msd, _ := c10Members(doc)
+	exercised := false
+	for _, qq := range []*Query{q, c09Cmp(c09Mirror[q.Op], c09CloneOperand(q.R), c09CloneOperand(q.L))} {
+		s := ctx.sel(qq)
+		for j, m := range msd {
+			lv, rv := c10Eval(qq.L.Path, doc, m), c10Eval(qq.R.Path, doc, m)
+			if !lv.ok && !rv.ok {
+				tags["both-absent(spec decides)"] = true
+				continue
+			}
+			eq := lv.ok && rv.ok && reflect.DeepEqual(lv.v, rv.v)
+			if lv.ok && rv.ok {
+				exercised = true
+				if eq {
+					tags["operands:deep-equal"] = true
+				} else {
+					tags["operands:deep-unequal"] = true
+				}
+			}
+			want := eq
+			if qq.Op == c09NE {
+				want = !eq
+			}
+			if want != s[j] {
+				verb := "must not be selected"
+				if want {
+					verb = "must be selected"
+				}
+				lt, rt := "absent", "absent"
+				if lv.ok {
+					lt = clip(JSONText(lv.v), 120)
+				}
+				if rv.ok {
+					rt = clip(JSONText(rv.v), 120)
+				}
+				ctx.fail("deep-equal", "%s: member %d %s (left operand %s, right operand %s, reflect.DeepEqual=%v) but the library selects %s on %s", c09Text(qq), j, verb, lt, rt, eq, s, JSONText(doc))
+			}
+		}
+	}
+	tags["law:reflect.DeepEqual"] = true
+	tags["operands:"+c09OperandKind(q.L)+"|"+c09OperandKind(q.R)] = true
+	tags["leaf:cmp-"+OpNames[q.Op]] = true
+	if isObj {
+		tags["container:object"] = true
+	} else {
+		tags["container:array"] = true
+	}
+	cnt := 0
+	for _, x := range got {
+		if x {
+			cnt++
+		}
+	}
+	cls := "some"
+	if cnt == 0 {
+		cls = "none"
+	} else if cnt == n {
+		cls = "all"
+	}
+	tags["selects:"+cls] = true
+	rec.Info["selected"] = got.String()
+	rec.Info["library_calls"] = ctx.calls
+	rec.Viol, rec.Class = ctx.viol, ctx.cls
+	if ctx.viol == "" || ctx.cls == "law" || ctx.cls == "deep-equal" {
+		rec.Q = []LeanQ{c09SpecQ(q, doc, ctx.outcome(c09Text(q)))}
+	}
+	if exercised {
+		rec.Key = fmt.Sprintf("deep/%s/%s %s/w%d/%v%d/%s", OpNames[q.Op], c10OperandKey(q.L), c10OperandKey(q.R), wrapKind, isObj, n, cls)
 	}
 	for t := range tags {
 		rec.Tags = append(rec.Tags, t)
